@@ -221,6 +221,7 @@ def rule_r2(ctx) -> RuleResult:
     arms = X.kind_arms(mr, ctx=ctx)
     if "N" in arms:
         rets = [n for st in arms["N"] for n in ast.walk(st) if isinstance(n, ast.Return) and n.value is not None]
+        rets = [r2 for r in rets for r2 in X.follow_method_returns(ctx, r)]
         main = [r for r in rets if not isinstance(r.value, ast.Constant)]
         if len(main) == 1 and _quote_applications(main[0].value) == 1 and "args[0]" in unparse(main[0].value):
             rr.ok("core.Wtp._finalize_expand.magic_repl", unparse(main[0]), {"consumer": "magic_repl", "emits": unparse(main[0].value)})
